@@ -20,6 +20,7 @@ import (
 
 	"github.com/syndtr/goleveldb/leveldb"
 	"github.com/syndtr/goleveldb/leveldb/errors"
+	"github.com/syndtr/goleveldb/leveldb/journal"
 	"github.com/syndtr/goleveldb/leveldb/opt"
 	"github.com/syndtr/goleveldb/leveldb/storage"
 	"github.com/syndtr/goleveldb/leveldb/util"
@@ -668,6 +669,30 @@ func kOpenDirected(root *vlib.RNG, res *vlib.Result) (cases []string) {
 	img.SetFileBytes(storage.FileDesc{Type: storage.TypeTemp, Num: hi + 4}, []byte("tmp"))
 	img.SetFileBytes(storage.FileDesc{Type: storage.TypeJournal, Num: hi + 7}, nil)
 	add(img, base)
+	// a checksum-valid journal record whose batch header leaves the key range (seq = 2^64-1; count 0 with an
+	// empty body, count 1 with one well-formed record): decodeBatchToMem must report 'invalid sequence number';
+	// skipped without StrictJournal, Open fails with it
+	for _, count := range []uint32{0, 1} {
+		for _, strict := range []bool{false, true} {
+			img = final()
+			rec := make([]byte, 12)
+			binary.LittleEndian.PutUint64(rec, ^uint64(0))
+			binary.LittleEndian.PutUint32(rec[8:], count)
+			if count == 1 {
+				rec = append(rec, 1, 1, 'z', 1, 'Z')
+			}
+			var jb bytes.Buffer
+			jw := journal.NewWriter(&jb)
+			ww, _ := jw.Next()
+			ww.Write(rec)
+			jw.Close()
+			img.SetFileBytes(storage.FileDesc{Type: storage.TypeJournal, Num: hi + 7}, jb.Bytes())
+			k = base
+			k.strictJ = strict
+			add(img, k)
+			res.Count("ko_directed_seq_range_records", 1)
+		}
+	}
 	out.stor.Discard()
 	return cases
 }
